@@ -185,6 +185,13 @@ def gen_rounds(seed, tier, run):
             if L == 6 and rng.random() < 0.7:
                 continue
             out.append(f"trim_zeros {arr([L], v)}")
+    # one fill value at several positions given in ANY order (seeded change C13p: a fast path for a single value
+    # walked the request as given)
+    for sh in ([5], [6], [2, 3], [2, 2, 2]):
+        tot = prod(sh)
+        for pos in ([3, 1], [tot, 0, 2], [2, 2, 0], [tot, tot - 1], [1, 0], [4, 0, 4, 1]):
+            pos = [min(p_, tot) for p_ in pos]
+            out.append(f"insert {arr(sh)} {lst(pos)} a1:-1 n")
     # trim_zeros on float arrays: NaN, infinities and signed zeros at the ends (seeded change C13n)
     for ty in ("f64p", "f32p"):
         for _ in range(60):
